@@ -7,6 +7,9 @@ ID = "C12"
 CLAIMED = True
 MODEL_GROUP = "sched"
 THEOREM_FILE = "Props/C12.v"
+# statements other layers' models contribute to this property (same rules as Props/C12.v)
+EXTRA_THEOREM_FILES = ["Props/C12Cache.v"]
+PARAMS = ["sched", "life"]
 LEVEL_TEXT = ("Coq theorems over a Gallina model of the daemon's scheduling core, by an invariant over ALL histories of "
               "API calls and iteration times (no assumption on the schedule): in every reachable state every pending "
               "query retransmission, every hostname-resolution deadline and the next interface check has a timer at "
@@ -15,7 +18,11 @@ LEVEL_TEXT = ("Coq theorems over a Gallina model of the daemon's scheduling core
               "resolve_hostname with timeout 0 - for every interface-check interval incl. 0, very large and changed at "
               "run time (no_spin). The model is tied to the Rust on every run (regenerated constants pinned by proof; "
               "the real daemon thread driven in the simulated world, the wake-up requested at every iteration compared "
-              "exactly); chk_C12 runs as monitor on the implementation's traces")
+              "exactly); chk_C12 runs as monitor on the implementation's traces. Cache layer (Props/C12Cache.v, over ALL "
+              "histories of the daemon-level cache model of C11 extended with the timers the daemon pushes per record): "
+              "whenever a refresh query (80/85/90/95 % mark), an expiry with its removal event, or the one-second "
+              "expiry after a cache-flush / goodbye is due at time t, the timer set holds t; granted the wake-up it "
+              "asks for, the daemon does that work at its due time")
 TECHNIQUE = ("machine-checked proof in Coq (inductive invariant of a state-machine model over all histories) + "
              "model/implementation correspondence")
 LEVELS = ("K6 (real ServiceDaemon + daemon thread under verif-hooks; the gate reports the earliest timer at every "
@@ -38,9 +45,12 @@ TRUSTED = [
     "check_ip_changes does nothing when the interface table is unchanged",
 ]
 PARTIAL = ("time-driven work covered by theorems: query retransmissions, hostname-resolution deadlines, the interface "
-           "check. Probe steps, announcement repeats, goodbye repeats, record refresh and expiry with their events, "
-           "cache-flush expiry, verify deadlines, follow-up queries need the registry / cache layers: for those the "
-           "check has no theorem; it runs the model-free exact-vs-dense comparison (tools/props/wakediff.py: two "
+           "check (scheduler model), record refresh and expiry with their events and the cache-flush / goodbye second "
+           "(cache model, Props/C12Cache.v: its per-record timer log is a model of the pushes in handle_response / "
+           "refresh_active_services; the real heap is only observed through the requested wake-up, compared in the "
+           "timer-exact K6 runs of C11 and by the exact-vs-dense comparison here). Probe steps, announcement repeats, "
+           "goodbye repeats, verify deadlines and follow-up queries need the registry / browser layers: for those the "
+           "check has no theorem yet; it runs the model-free exact-vs-dense comparison (tools/props/wakediff.py: two "
            "identical daemons, one woken exactly as asked, one more often; the exact one must never act later) and a "
            "bound on iterations per second, as search support. 'Number of iterations "
            "per unit of virtual time' is proved as: every wake-up moves strictly forward (a stale timer of a stopped "
